@@ -1117,7 +1117,7 @@ def fam_protocol(sess):
                     sess.violated(name, role, '%d accepted row(s): %s; stdout %r' % (len(accepted), why, text[:160]),
                                   {'mode': mode, 'format': fmt, 'accepted': accepted, 'stdout': text[:400]}, cli_replay_protocol(mode, fmt, len(accepted), nroots), fam)
 
-                n, complete = ex.explore(runp, on_path, time_budget=120 if quick else 900)
+                n, complete = ex.explore(runp, on_path, time_budget=240 if quick else 900)
                 if not complete:
                     sess.inconclusive(name, 'time budget exceeded after %d paths' % n, fam)
                 elif not viol and not st.get('bad'):
